@@ -164,13 +164,43 @@ fn reopen(
     spec: &BTreeMap<String, Vec<String>>,
     snap: Option<&Path>,
 ) -> Result<(Dump, usize), (String, String)> {
+    // a hang with a panic on stderr is the outcome; a silent timeout is tried once more on a fresh
+    // copy (the machine may be busy), with nothing else changed
+    let backup = dir.with_extension("retry");
+    copy_tree(dir, &backup);
+    let r = reopen_once(dir, opts, spec, snap, false);
+    let r = match r {
+        Err((sig, _)) if sig.contains("no_panic_reported") => {
+            let _ = std::fs::remove_dir_all(dir);
+            copy_tree(&backup, dir);
+            std::thread::sleep(Duration::from_millis(500));
+            reopen_once(dir, opts, spec, snap, false)
+        }
+        other => other,
+    };
+    let _ = std::fs::remove_dir_all(&backup);
+    r
+}
+
+/// after a successful recovery: is the database usable? (one more flush, content unchanged)
+fn flush_probe(dir: &Path, opts: &[Sx], spec: &BTreeMap<String, Vec<String>>) -> Result<(Dump, usize), (String, String)> {
+    reopen_once(dir, opts, spec, None, true)
+}
+
+fn reopen_once(
+    dir: &Path,
+    opts: &[Sx],
+    spec: &BTreeMap<String, Vec<String>>,
+    snap: Option<&Path>,
+    then_flush: bool,
+) -> Result<(Dump, usize), (String, String)> {
     let mut p = DbProc::spawn(dir);
     let mut cmd = vec![a("open")];
     cmd.extend(opts.iter().cloned());
     if let Some(s) = snap {
         cmd.push(lst(vec![a("snap"), name_sx(&s.to_string_lossy())]));
     }
-    let r = p.request_quick_hang(&lst(cmd), Duration::from_secs(12), Duration::from_millis(1200));
+    let r = p.request_quick_hang(&lst(cmd), Duration::from_secs(40), Duration::from_millis(1200));
     let fail = |p: &DbProc, kind: &str| {
         let pm = p.first_panic().unwrap_or_else(|| "no panic reported".into());
         (format!("{}:open:{}", kind, lvsig(&pm)), format!("opening the copy: {} ({})", kind, pm))
@@ -184,7 +214,21 @@ fn reopen(
         Reply::Hang => return Err(fail(&p, "hang")),
         Reply::Died => return Err(fail(&p, "died")),
     }
-    let d = match p.request_quick_hang(&lst(vec![a("dump"), spec_sx(spec)]), Duration::from_secs(12), Duration::from_millis(1200)) {
+    if then_flush {
+        match p.request_quick_hang(&lst(vec![a("flush")]), Duration::from_secs(40), Duration::from_millis(1200)) {
+            Reply::Ok(s) if s.tag() == "ok" => {}
+            Reply::Ok(s) => {
+                let pm = p.first_panic().unwrap_or_else(|| if s.items().len() > 1 { sx_name(&s.items()[1]) } else { "?".into() });
+                return Err((format!("panic:flush-after-recovery:{}", lvsig(&pm)), format!("the first flush after the recovery panicked: {}", pm)));
+            }
+            Reply::Hang => {
+                let pm = p.first_panic().unwrap_or_else(|| "no panic reported".into());
+                return Err((format!("hang:flush-after-recovery:{}", lvsig(&pm)), format!("the first flush after the recovery never returns ({})", pm)));
+            }
+            Reply::Died => return Err(fail(&p, "died")),
+        }
+    }
+    let d = match p.request_quick_hang(&lst(vec![a("dump"), spec_sx(spec)]), Duration::from_secs(40), Duration::from_millis(1200)) {
         Reply::Ok(s) if s.tag() == "dump" => parse_dump(&s),
         Reply::Ok(s) => {
             let m = if s.items().len() > 1 { sx_name(&s.items()[1]) } else { "?".into() };
@@ -314,11 +358,47 @@ pub fn run_crash(input: &Sx) -> Vec<Outcome> {
         p.kill();
     }
 
-    // phase 2: every cut (and truncated variants of a freshly written temp file) is opened
+    // phase 2: every cut (and truncated variants of a freshly written temp file) is opened.
+    // Cuts whose directory (names and sizes) equals one already judged for the same operation are
+    // skipped; the quick tier caps the number of cuts per workload, keeping every cut of an
+    // ingestion and an even sample of the others.
+    let cap: usize = it.get(3).map(|x| x.items()[1].as_usize()).unwrap_or(usize::MAX);
+    let mut seen_dirs: BTreeSet<(usize, Vec<(String, u64)>)> = BTreeSet::new();
+    let mut selected: Vec<&Cut> = vec![];
+    for cut in &cuts {
+        let listing: Vec<(String, u64)> = list_tree(&cut.dir)
+            .into_iter()
+            .map(|f| {
+                let len = std::fs::metadata(cut.dir.join(&f)).map(|m| m.len()).unwrap_or(0);
+                (f, len)
+            })
+            .collect();
+        if seen_dirs.insert((cut.op_index, listing)) || cut.effect == "write" {
+            selected.push(cut);
+        }
+    }
+    stats.cuts = cuts.len();
+    let n_ingest = selected.iter().filter(|c| c.op_kind == "ingest").count();
+    let others: Vec<&Cut> = selected.iter().cloned().filter(|c| c.op_kind != "ingest").collect();
+    let room = cap.saturating_sub(n_ingest).max(8);
+    let stride = if others.len() > room { (others.len() + room - 1) / room } else { 1 };
+    let mut k = 0usize;
+    let selected: Vec<&Cut> = selected
+        .into_iter()
+        .filter(|c| {
+            if c.op_kind == "ingest" {
+                true
+            } else {
+                k += 1;
+                (k - 1) % stride == 0
+            }
+        })
+        .collect();
     let mut trace: Vec<Sx> = vec![];
     let mut variant_no = 0usize;
-    for cut in &cuts {
-        stats.cuts += 1;
+    let mut probed_temp = false;
+    let mut probed_other = false;
+    for cut in selected {
         let mut variants: Vec<(String, Option<u64>)> = vec![("whole".into(), None)];
         if cut.effect == "write" && cut.path.starts_with("wal/") {
             for t in &truncations {
@@ -403,7 +483,29 @@ pub fn run_crash(input: &Sx) -> Vec<Outcome> {
                             }
                         }
                     }
-                    // recovering twice changes nothing
+                    // is the recovered database usable: one flush, same content
+                    let complete_temp = has_wal_temp && trunc.is_none();
+                    if (complete_temp && !probed_temp) || (!has_wal_temp && !probed_other && cut.op_kind == "flush") {
+                        if complete_temp {
+                            probed_temp = true;
+                        } else {
+                            probed_other = true;
+                        }
+                        match flush_probe(&v, &opts, &spec) {
+                            Err((sig, msg)) => violation(
+                                format!("{}{}", sig, if has_wal_temp { ":wal-temp" } else { "" }),
+                                format!("cut after {} of {} ({}): {}", cut.effect, cut.path, vname, msg),
+                                &mut outs,
+                            ),
+                            Ok((dd, _)) => {
+                                if !cut.allowed.iter().any(|l| l.differs(&dd, &spec).is_none()) {
+                                    violation("flush-after-recovery:content".into(), "a flush after the recovery changes the content".into(), &mut outs);
+                                }
+                            }
+                        }
+                    }
+                    // recovering twice changes nothing (sampled)
+                    if variant_no % 4 == 0 {
                     match reopen(&v, &opts, &spec, None) {
                         Err((sig, msg)) => violation(format!("second-open:{}", sig), format!("second opening of the recovered copy: {}", msg), &mut outs),
                         Ok((dd, _)) => {
@@ -411,6 +513,7 @@ pub fn run_crash(input: &Sx) -> Vec<Outcome> {
                                 violation("second-open:content".into(), "opening the recovered copy a second time changes the content".into(), &mut outs);
                             }
                         }
+                    }
                     }
                 }
             }
